@@ -24,16 +24,16 @@ import (
 func init() {
 	register(&Check{
 		ID: "C18", Level: "exploration", Primary: "behaviours", EvalCount: "offending_connections",
-		Rule: "TLS configurations {server authentication only; client certificate required and verified (harness PKI on a gldap.Server, and testdirectory.Start(WithMTLS))} x offending client behaviours {plaintext LDAP request of each of " +
+		Rule: "TLS configurations {server authentication only (also with a TLS 1.3 minimum, against clients that go no further than 1.2); client certificate required and verified (harness PKI on a gldap.Server, and testdirectory.Start(WithMTLS))} x offending client behaviours {plaintext LDAP request of each of " +
 			"the seven operations carrying a unique tag; arbitrary bytes; TCP connect without ClientHello; partial ClientHello; and - where a certificate is required - a TLS 1.2 and a TLS 1.3 handshake without certificate " +
 			"followed immediately by a tagged bind (in TLS 1.3 the client finishes first, so the request is already in flight when the server rejects), a certificate from a different CA, an expired certificate, certificate-less and foreign-CA clients that offer TLS 1.0/1.1 only, and a client certificate that is valid for ANOTHER test directory / GetTLSConfig call of the same process}; plaintext requests are also followed by further writes on the same socket; a session that satisfies the configuration is closed with close_notify both ways and the client then sends a tagged plaintext request on the same TCP connection; " +
-			"run concurrently with conforming clients that are verified; also crafted chains (a foreign leaf followed by certificates the configured CA did issue), configurations that deliver their certificate or themselves through callbacks, a different configuration given to NewServer, and abandoned handshakes held open while a conforming client must be served within 10s. Oracle: after each offending connection has been reported closed, no handler record (recording handlers / the test directory's own handler log) carries an offending tag. " +
+			"run concurrently with conforming clients that are verified; also crafted chains (a foreign leaf followed by certificates the configured CA did issue), configurations that deliver their certificate or themselves through callbacks, a different configuration given to NewServer, and abandoned handshakes held open while a conforming client must be served within 10s; every server is stopped while three peers that never got through a handshake are still connected (the mux also routes the Notice-of-Disconnection name). Oracle: after each offending connection has been reported closed, no handler record (recording handlers / the test directory's own handler log) carries an offending tag. " +
 			"distinct_nontrivial = distinct (configuration, behaviour, operation) combinations",
 		Assume: []string{"for the test directory, handler execution is observed through its own Info-level handler log lines (bind/search/add/modify/delete handlers log the DN) and through directory state"},
 		Phases: func(tier string, seed int64) []Phase {
 			return []Phase{{Name: "gating", Run: c18Run}, {Name: "testdirectory-mtls", Run: c18Directory}}
 		},
-		MinObserved: []string{"offending_connections", "conforming_ops_verified", "tls13_no_cert_requests_in_flight", "directory_offending_connections", "stranger_certificates_prepared", "conforming_clients_served_next_to_abandoned_handshakes", "sessions_carried_over_to_a_server_with_another_ca", "conforming_sessions_closed_properly_then_continued_in_plaintext"},
+		MinObserved: []string{"offending_connections", "conforming_ops_verified", "tls13_no_cert_requests_in_flight", "directory_offending_connections", "stranger_certificates_prepared", "conforming_clients_served_next_to_abandoned_handshakes", "sessions_carried_over_to_a_server_with_another_ca", "conforming_sessions_closed_properly_then_continued_in_plaintext", "stops_with_abandoned_handshakes_pending", "configurations_with_a_tls13_minimum_checked"},
 	})
 }
 
@@ -315,7 +315,7 @@ func c18SessionAcrossServers(c *Ctx) {
 func c18Run(c *Ctx) {
 	c18SessionAcrossServers(c)
 	pki := newPKI()
-	for _, cfgName := range []string{"server-auth-only", "client-cert-required", "server-auth-only-certificate-from-callback", "client-cert-required-config-from-callback", "client-cert-required-while-NewServer-was-given-another-config", "server-auth-only-run-on-localhost", "client-cert-required-run-on-localhost"} {
+	for _, cfgName := range []string{"server-auth-only", "client-cert-required", "server-auth-only-certificate-from-callback", "client-cert-required-config-from-callback", "client-cert-required-while-NewServer-was-given-another-config", "server-auth-only-run-on-localhost", "client-cert-required-run-on-localhost", "server-auth-only-tls13-minimum"} {
 		mtls := strings.HasPrefix(cfgName, "client-cert-required")
 		stc, ctc := pki.ServerOnly, pki.ClientPlain
 		if mtls {
@@ -343,7 +343,14 @@ func c18Run(c *Ctx) {
 			runAddr = fmt.Sprintf("localhost:%d", p)
 			otherLoopback = fmt.Sprintf("[::1]:%d", p)
 		}
-		srv, err := startSrv(SrvCfg{TLS: stc, CtorTLS: ctorTLS, Addr: runAddr}, func(m *gldap.Mux) { rc.RegisterAll(m, nil) })
+		if cfgName == "server-auth-only-tls13-minimum" {
+			stc = pki.ServerOnly.Clone()
+			stc.MinVersion = tls.VersionTLS13
+		}
+		// the application also has a route under the name of the Notice of Disconnection (any name can be routed)
+		srv, err := startSrv(SrvCfg{TLS: stc, CtorTLS: ctorTLS, Addr: runAddr}, func(m *gldap.Mux) {
+			rc.RegisterAll(m, []string{string(gldap.ExtendedOperationDisconnection)})
+		})
 		if err != nil {
 			c.Inconclusive("server start: " + err.Error())
 			return
@@ -376,6 +383,14 @@ func c18Run(c *Ctx) {
 			}(b)
 		}
 		behaviours := c18Behaviours(mtls, pki, "bind")
+		if cfgName == "server-auth-only-tls13-minimum" {
+			// the configuration asks for TLS 1.3: a client that goes no further than 1.2 does not satisfy it
+			for _, op := range []string{"bind", "search", "unbind"} {
+				old := &tls.Config{RootCAs: pki.CAPool, ServerName: "localhost", InsecureSkipVerify: true, MaxVersion: tls.VersionTLS12}
+				behaviours = append(behaviours, c18Behaviour{"tls12-at-most-client-then-" + op, op, c18TLSThenBind(old, op)})
+			}
+			c.Count("configurations_with_a_tls13_minimum_checked", 1)
+		}
 		reps := c.N(5, 200)
 		offTags := map[string]string{}
 		par := c.N(4, 32)
@@ -461,7 +476,26 @@ func c18Run(c *Ctx) {
 		bwg.Wait()
 		// quiescence: every accepted connection has been reported closed
 		time.Sleep(20 * time.Millisecond)
+		// the server is stopped while peers that never got through a handshake are still connected (silent, half a
+		// ClientHello, plaintext): whatever gldap does for a connection at shutdown, no handler runs for these
+		var pending []net.Conn
+		for k := 0; k < 3; k++ {
+			if cn, err := net.DialTimeout("tcp", srv.Addr, 5*time.Second); err == nil {
+				switch k {
+				case 1:
+					cn.Write([]byte{0x16, 0x03, 0x01, 0x00, 0xc8, 0x01, 0x00, 0x00, 0xc4, 0x03, 0x03})
+				case 2:
+					cn.Write([]byte{0x30})
+				}
+				pending = append(pending, cn)
+			}
+		}
+		time.Sleep(10 * time.Millisecond)
+		c.Count("stops_with_abandoned_handshakes_pending", 1)
 		ok, _ := srv.StopWithin(patience)
+		for _, cn := range pending {
+			cn.Close()
+		}
 		if !ok {
 			c.Inconclusive("Stop did not return")
 		}
